@@ -70,8 +70,11 @@ func (s *Scheduler) Schedule(g *ExecutionGraph) error {
 				continue
 			}
 
+			if !stage.start() {
+				continue
+			}
+
 			wg.Add(1)
-			stage.UpdateStatus(StatusRunning)
 			go func(stage *Stage) {
 				defer func() {
 					stage.End = time.Now()
